@@ -16,10 +16,10 @@ def case_grid(tier, seed, which):
     also gets big-parameter cases (k up to 32, segment size up to 60000)."""
     g = []
 
-    def add(kind, samples, chroms, ln, k, seg, mm, t, mode="multi", fallback=0.0, via="cli", width=60, case=0, crlf=False, n=1):
+    def add(kind, samples, chroms, ln, k, seg, mm, t, mode="multi", fallback=0.0, via="cli", width=60, case=0, crlf=False, n=1, lpack=50, clevel=17):
         for i in range(n):
             g.append(dict(kind=kind, samples=samples, chroms=chroms, len=ln, k=k, seg=seg, mm=mm, t=t, mode=mode,
-                          fallback=fallback, via=via, width=width, case=case, crlf=crlf, seed=seed * 1000 + len(g)))
+                          fallback=fallback, via=via, width=width, case=case, crlf=crlf, lpack=lpack, clevel=clevel, seed=seed * 1000 + len(g)))
 
     quick = tier == "quick"
     rep = 1 if quick else 4
@@ -35,6 +35,8 @@ def case_grid(tier, seed, which):
     add("trunc", 5, 2, 1600, 12, 150, 18, 2, mode="single", n=rep)
     add("reorder", 6, 3, 900, 11, 100, 15, 4, n=rep)
     add("basic", 3, 3, 1000, 11, 100, 15, 3, mode="single", n=rep)
+    add("basic", 4, 3, 800, 11, 100, 15, 4, mode="single", lpack=3, clevel=3, n=rep)   # -l 3: a synchronisation round every 3 contigs; -c 3
+    add("dup", 4, 2, 1000, 10, 80, 15, 2, lpack=2, clevel=19, via="lib", n=rep)
     add("rc", 4, 2, 1200, 9, 60, 15, 2, mode="single", case=1, n=rep)
     add("basic", 4, 2, 1500, 11, 100, 15, 3, fallback=0.1, n=rep)
     add("manysamples", 60, 1, 300, 9, 50, 15, 4)
@@ -58,9 +60,9 @@ def case_grid(tier, seed, which):
 
 def run_case(ctx, cs, mode, cli):
     """Returns dict(id, status, detail, stats, items). status in ok / create_failed / rejected."""
-    cid = "%s_s%d_c%d_l%d_k%d_seg%d_mm%d_t%d_%s_f%s_%s_seed%d" % (
+    cid = "%s_s%d_c%d_l%d_k%d_seg%d_mm%d_t%d_%s_f%s_%s_p%d_z%d_seed%d" % (
         cs["kind"], cs["samples"], cs["chroms"], cs["len"], cs["k"], cs["seg"], cs["mm"], cs["t"], cs["mode"],
-        str(cs["fallback"]).replace(".", ""), cs["via"], cs["seed"])
+        str(cs["fallback"]).replace(".", ""), cs["via"], cs["lpack"], cs["clevel"], cs["seed"])
     d = os.path.join(ctx.work, cid)
     os.makedirs(d, exist_ok=True)
     args = ["gen-case", "--seed", str(cs["seed"]), "--kind", cs["kind"], "--samples", str(cs["samples"]),
@@ -77,7 +79,7 @@ def run_case(ctx, cs, mode, cli):
     res = dict(id=cid, case=cs, bases=info["bases"], n_contigs=info["n_contigs"])
     if cs["via"] == "cli":
         cmd = [cli, "create", "-o", agc, "-k", str(cs["k"]), "-s", str(cs["seg"]), "-m", str(cs["mm"]),
-               "-t", str(cs["t"]), "-v", "0", "--fallback-frac", str(cs["fallback"])] + files
+               "-t", str(cs["t"]), "-v", "0", "--fallback-frac", str(cs["fallback"]), "-l", str(cs["lpack"]), "-c", str(cs["clevel"])] + files
         try:
             p = subprocess.run(cmd, stdout=subprocess.PIPE, stderr=subprocess.PIPE, timeout=1200)
         except subprocess.TimeoutExpired:
@@ -87,7 +89,8 @@ def run_case(ctx, cs, mode, cli):
             return res
     else:
         _, out, _, _ = C.rvh(["create", "--files", ",".join(files), "--out", agc, "--k", str(cs["k"]), "--seg", str(cs["seg"]),
-                              "--mm", str(cs["mm"]), "--threads", str(cs["t"]), "--fallback", str(cs["fallback"])])
+                              "--mm", str(cs["mm"]), "--threads", str(cs["t"]), "--fallback", str(cs["fallback"]), "--pack", str(cs["lpack"]),
+                              "--level", str(cs["clevel"])])
         r = json.loads(out.strip().splitlines()[-1])
         if r["result"] != "ok":
             res.update(status="create_failed", detail=r["result"] + ": " + r["msg"][-400:])
